@@ -37,6 +37,12 @@ def pathJoin (a b : Str) : Str :=
 def makeSafePath (base : Str) (args : List Str) : Str :=
   args.foldl (fun p a => pathJoin p (sanitize a)) base
 
+/-- where `LocalScriptAdapter.submit` writes the captured stdout / stderr of a step it ran:
+`os.path.join(cwd, "<step.name>.<pid>.out")` and `….err` (`name` is the nickname the script is
+called after, `pid` the process id as text) -/
+def localCapturePaths (cwd name pid : Str) : Str × Str :=
+  (pathJoin cwd (name ++ ['.'] ++ pid ++ ".out".toList), pathJoin cwd (name ++ ['.'] ++ pid ++ ".err".toList))
+
 /-! ### specification -/
 
 structure Param where
